@@ -1,1 +1,4 @@
-pub mod placeholder {}
+//! Independent reference components (no dependency on quandary).
+pub mod name;
+pub mod rdata;
+pub mod wire;
